@@ -24,6 +24,7 @@ profile. They exist because seeded changes of round 2 needed them to manifest (D
                       them WITHOUT the feature (the shadowed provider drops out; the others keep nearest-first order); plain / unique
  p_two_patched_downloads  two (or three) different downloaded modules with patches in one build: every one of them renders the GIT_PATCH rule
  p_custom_build_no_out a custom build (`build:`) without `out` / with an empty `out` list, in a configured build
+ p_cli_comma_define   a `-D` value containing commas and further `=` signs (`-D LIBS=-Wl,-Map=out.map`): one assignment, split at the first `=`
  p_subdirs_later_doc  a multi-document file listing a sub-directory from a document that is not the first, with different defaults
 """
 import copy, random
@@ -402,6 +403,13 @@ def custom_build_no_out(p, rng):
         a[kk] = list(a.get(kk) or []) + [rng.choice(["nbo", "nbo", "?nbo"])]
 
 
+def cli_comma_define(p, rng):
+    a = p.setdefault("args", {})
+    var = rng.choice(["LIBS", "CFLAGS", "X", "DEFS"])
+    val = rng.choice(["-Wl,-Map=out.map", "a,b", "x,y=z", ",", "a, b"])
+    a["define"] = list(a.get("define") or []) + [var + rng.choice(["=", "+="]) + val]
+
+
 def subdirs_later_doc(p, rng):
     docs = p["files"]["laze-project.yml"]
     root = docs[0]
@@ -419,7 +427,7 @@ def subdirs_later_doc(p, rng):
 
 
 SHAPES = [("p_rule_rename_chain", rule_rename_chain), ("p_ifthen_feature_cond", ifthen_feature_cond), ("p_empty_blockallow", empty_blockallow),
-          ("p_rule_export_escape", rule_export_escape), ("p_optsrc_same_guard", optsrc_same_guard), ("p_subdirs_later_doc", subdirs_later_doc), ("p_custom_build_no_out", custom_build_no_out), ("p_two_patched_downloads", two_patched_downloads), ("p_shadowed_provider", shadowed_provider),
+          ("p_rule_export_escape", rule_export_escape), ("p_optsrc_same_guard", optsrc_same_guard), ("p_subdirs_later_doc", subdirs_later_doc), ("p_cli_comma_define", cli_comma_define), ("p_custom_build_no_out", custom_build_no_out), ("p_two_patched_downloads", two_patched_downloads), ("p_shadowed_provider", shadowed_provider),
           ("p_dup_listing", dup_listing), ("p_ctx_shuffle", ctx_shuffle), ("p_app_dup", app_dup), ("p_rule_field_variant", rule_field_variant),
           ("p_defaults_lists", defaults_lists), ("p_global_dep_order", global_dep_order), ("p_late_ifthen_leaf", late_ifthen_leaf)]
 
